@@ -974,10 +974,11 @@ impl Report {
             print!("{out}");
             return 2;
         }
-        let code = if !self.machinery_errors.is_empty() {
-            2
-        } else if !vio.is_empty() {
+        // a violation found on the real code stands even if the machinery also complained about itself
+        let code = if !vio.is_empty() {
             1
+        } else if !self.machinery_errors.is_empty() {
+            2
         } else {
             0
         };
